@@ -134,7 +134,15 @@ func runC14(c *Ctx) {
 	var sites []site
 	for _, ci := range gorillaConnCalls(p) {
 		if !gorillaWriteSide[methodOf(ci)] {
-			continue
+			// WriteControl may run concurrently with a message writer as far as gorilla is concerned, and a
+			// ping or pong between two fragments is harmless. A close frame is not: every later write fails
+			// with ErrCloseSent, so a message whose fragments are still being written is cut short.
+			if methodOf(ci) != "WriteControl" || len(ci.Common().Args) < 2 {
+				continue
+			}
+			if k, isK := constInt(ci.Common().Args[1]); isK && (k == 9 || k == 10) {
+				continue
+			}
 		}
 		ls := li.mustAt(ci)
 		sites = append(sites, site{ci, ls})
